@@ -145,6 +145,14 @@ async def write_record(writer, request_id, data, *, encoder: str = 'pickle'):
     # TODO: add timeout?
 
 
+class _UndecodableRecord:
+    # The payload of a record that `read_record` could not decode.
+    __slots__ = ('exc',)
+
+    def __init__(self, exc: Exception):
+        self.exc = exc
+
+
 async def read_record(reader, *, timeout=None):
     # `timeout` should be `None` or `> 0`.
     # This may raise `asyncio.TimeoutError` (nothing to read at the moment)
@@ -153,7 +161,14 @@ async def read_record(reader, *, timeout=None):
     data = await asyncio.wait_for(reader.readuntil(b'\n'), timeout)
     request_id, num_bytes, encoder = data[:-1].decode().split()
     data = await reader.readexactly(int(num_bytes))
-    return request_id, decode(data, encoder)
+    try:
+        return request_id, decode(data, encoder)
+    except Exception as e:
+        # The record has been read in full but its payload can not be rebuilt in this
+        # process (e.g. it was pickled by a class that refuses the pickled state here).
+        # The stream is intact; let the caller fail this one request rather than the task
+        # that reads all the records of the connection.
+        return request_id, _UndecodableRecord(e)
     # If this function is called on the server side, it should include
     # `request_id` as is in the response.
     # If this function is called on the client side, after getting
@@ -389,6 +404,12 @@ class SocketServer:
                         return
                     continue
                 # If `asyncio.IncompleteReadError` is raised, let it propage.
+                if isinstance(data, _UndecodableRecord):
+                    # Answer this request with the error.
+                    t = loop.create_future()
+                    t.set_exception(data.exc)
+                    await reqs.put((req_id, t))
+                    continue
                 path = data[0]
                 data = data[1]
                 if path == self._shutdown_path:
@@ -614,6 +635,8 @@ class SocketClient:
                 # Do not capture `asyncio.IncompleteReadError`;
                 # let it stop this function.
                 fut = active.pop(req_id)
+                if isinstance(data, _UndecodableRecord):
+                    data = data.exc
                 if isinstance(data, BaseException):
                     fut.set_exception(data)
                 else:
